@@ -236,13 +236,16 @@ fn apply(f: Fault, env: &mut Env, k: usize) -> bool {
         },
         Fault::SrvStallMany => {
             let before = env.held.len();
-            for _ in 0..200 {
+            // under the low descriptor limit of the exhaustion faults two hundred held connections would *be* a lasting
+            // exhaustion (the property speaks of a temporary one): a fraction of the limit is held there
+            let n = if env.cl.spec.nofile.is_some() { 20 } else { 200 };
+            for _ in 0..n {
                 if let Some(s) = connect(sp) {
                     env.held.push(s);
                 }
             }
             std::thread::sleep(Duration::from_millis(200));
-            env.held.len() - before >= 150
+            env.held.len() - before >= n * 3 / 4
         }
         Fault::SrvPartialTlsHello => match connect(sp) {
             Some(mut s) => {
